@@ -1,8 +1,607 @@
-//! Structured payload generator (STUB: filled in together with the corresponding BDS models).
+//! Structured MB payloads for the Comm-B registers BDS 4,0 / 4,4 / 4,5 / 5,0 / 6,0.
+//!
+//! Every register is described by the widths of its raw fields (status bits, sign bits and values
+//! are separate fields).  `valid_XX` draws a random encoding that passes all validity rules of the
+//! decoder; the sweeps then override one field (or one coupled pair of fields) with boundary values
+//! (0, 1, max, the sign bit, both sides of every threshold), with the status bit on and off, the
+//! other fields staying valid.  Values beyond a threshold / status-off-with-value give the
+//! near-valid payloads (exactly one rule violated).  `thorough` replaces the boundary lists by the
+//! complete code space of each field.
 use crate::common::*;
+use crate::decgen::put_bits;
+
+fn pack(widths: &[usize], vals: &[u64]) -> Vec<u8> {
+    debug_assert_eq!(widths.len(), vals.len());
+    debug_assert_eq!(widths.iter().sum::<usize>(), 56);
+    let mut b = vec![0u8; 7];
+    let mut off = 0;
+    for (w, v) in widths.iter().zip(vals) {
+        put_bits(&mut b, off, *w, *v & ((1u64 << *w) - 1));
+        off += *w;
+    }
+    b
+}
+
+fn all(bits: u32) -> Vec<u64> {
+    (0..(1u64 << bits)).collect()
+}
+
+fn with(base: &[u64], over: &[(usize, u64)]) -> Vec<u64> {
+    let mut v = base.to_vec();
+    for (i, x) in over {
+        v[*i] = *x;
+    }
+    v
+}
+
+// ---------------------------------------------------------------------------------------------
+// BDS 4,0: mcp(1+12) fms(1+12) qnh(1+12) reserved(8) flags(1,1,1,1) reserved1(2) src_status(1) src(2)
+const W40: [usize; 14] = [1, 12, 1, 12, 1, 12, 8, 1, 1, 1, 1, 2, 1, 2];
+
+fn valid_40(rng: &mut Rng) -> Vec<u64> {
+    let sel = |rng: &mut Rng, max: u64| -> (u64, u64) {
+        if rng.chance(3, 4) {
+            (1, rng.below(max + 1))
+        } else {
+            (0, 0)
+        }
+    };
+    let (ms, mv) = sel(rng, 2818); // (v*16+8)/100*100 <= 45000  <=>  v <= 2818
+    let (fs, fv) = sel(rng, 2818);
+    let (qs, qv) = sel(rng, 4095);
+    vec![ms, mv, fs, fv, qs, qv, 0, rng.below(2), rng.below(2), rng.below(2), rng.below(2), 0, rng.below(2), rng.below(4)]
+}
+
+fn gen_40(rng: &mut Rng, thorough: bool, out: &mut Vec<Vec<u8>>) {
+    let sel: Vec<u64> = if thorough {
+        all(12)
+    } else {
+        vec![0, 1, 2, 5, 6, 7, 12, 13, 2047, 2048, 2811, 2812, 2813, 2817, 2818, 2819, 2820, 4094, 4095]
+    };
+    for f in 0..3 {
+        for st in 0..2 {
+            for &v in &sel {
+                let b = valid_40(rng);
+                out.push(pack(&W40, &with(&b, &[(2 * f, st), (2 * f + 1, v)])));
+            }
+        }
+    }
+    // all status combinations
+    for m in 0..8u64 {
+        let b = valid_40(rng);
+        let mut o = vec![];
+        for f in 0..3 {
+            let on = (m >> f) & 1;
+            o.push((2 * f, on));
+            if on == 0 {
+                o.push((2 * f + 1, 0));
+            }
+        }
+        out.push(pack(&W40, &with(&b, &o)));
+    }
+    // reserved bits (must be zero): each bit alone, all ones
+    for bit in 0..8 {
+        let b = valid_40(rng);
+        out.push(pack(&W40, &with(&b, &[(6, 1 << bit)])));
+    }
+    let b = valid_40(rng);
+    out.push(pack(&W40, &with(&b, &[(6, 0xff)])));
+    for r in 1..4 {
+        let b = valid_40(rng);
+        out.push(pack(&W40, &with(&b, &[(11, r)])));
+    }
+    // mode flags, source status and source
+    for fl in 0..16u64 {
+        for s in 0..8u64 {
+            let b = valid_40(rng);
+            out.push(pack(
+                &W40,
+                &with(&b, &[(7, fl >> 3), (8, (fl >> 2) & 1), (9, (fl >> 1) & 1), (10, fl & 1), (12, s >> 2), (13, s & 3)]),
+            ));
+        }
+    }
+}
+
+// ---------------------------------------------------------------------------------------------
+// BDS 4,4: fom(4) ws(1+9) wd(9) temp(1+10) pressure(1+11) turbulence(1+2) humidity(1+6)
+const W44: [usize; 12] = [4, 1, 9, 9, 1, 10, 1, 11, 1, 2, 1, 6];
+
+fn valid_44(rng: &mut Rng) -> Vec<u64> {
+    let (ws, wv, wd) = if rng.chance(3, 4) { (1, rng.below(251), rng.below(512)) } else { (0, 0, 0) };
+    let (ts, tv) = if rng.chance(1, 2) { (0, rng.below(241)) } else { (1, 704 + rng.below(320)) };
+    let (us, uv) = if rng.chance(1, 2) { (1, rng.below(4)) } else { (0, 0) };
+    let (hs, hv) = if rng.chance(1, 2) { (1, rng.below(64)) } else { (0, 0) };
+    vec![rng.below(16), ws, wv, wd, ts, tv, 0, 0, us, uv, hs, hv]
+}
+
+fn gen_44(rng: &mut Rng, thorough: bool, out: &mut Vec<Vec<u8>>) {
+    for fom in 0..16 {
+        let b = valid_44(rng);
+        out.push(pack(&W44, &with(&b, &[(0, fom)])));
+    }
+    let ws: Vec<u64> = if thorough { all(9) } else { vec![0, 1, 2, 128, 249, 250, 251, 255, 256, 510, 511] };
+    for st in 0..2 {
+        for &v in &ws {
+            let b = valid_44(rng);
+            // wind direction: keep the base one, and also zero (the only valid one when speed is absent)
+            out.push(pack(&W44, &with(&b, &[(1, st), (2, v)])));
+            out.push(pack(&W44, &with(&b, &[(1, st), (2, v), (3, 0)])));
+        }
+    }
+    let wd: Vec<u64> = if thorough { all(9) } else { vec![0, 1, 2, 127, 128, 255, 256, 257, 510, 511] };
+    for &v in &wd {
+        let b = valid_44(rng);
+        out.push(pack(&W44, &with(&b, &[(1, 1), (2, rng.below(251)), (3, v)])));
+        out.push(pack(&W44, &with(&b, &[(1, 0), (2, 0), (3, v)])));
+    }
+    let tv: Vec<u64> = if thorough { all(10) } else { vec![0, 1, 2, 239, 240, 241, 242, 511, 512, 702, 703, 704, 705, 1022, 1023] };
+    for sign in 0..2 {
+        for &v in &tv {
+            let b = valid_44(rng);
+            out.push(pack(&W44, &with(&b, &[(4, sign), (5, v)])));
+        }
+    }
+    let pv: Vec<u64> = if thorough { all(11) } else { vec![0, 1, 2, 1013, 1023, 1024, 2046, 2047] };
+    for st in 0..2 {
+        for &v in &pv {
+            let b = valid_44(rng);
+            out.push(pack(&W44, &with(&b, &[(6, st), (7, v)])));
+        }
+    }
+    for st in 0..2 {
+        for v in 0..4 {
+            let b = valid_44(rng);
+            out.push(pack(&W44, &with(&b, &[(8, st), (9, v)])));
+        }
+        for v in 0..64 {
+            let b = valid_44(rng);
+            out.push(pack(&W44, &with(&b, &[(10, st), (11, v)])));
+        }
+    }
+    // status combinations (wind, turbulence, humidity) with both temperature signs
+    for m in 0..16u64 {
+        let b = valid_44(rng);
+        let mut o = vec![];
+        if m & 1 == 0 {
+            o.extend([(1, 0), (2, 0), (3, 0)]);
+        } else {
+            o.extend([(1, 1)]);
+        }
+        o.push((8, (m >> 1) & 1));
+        if (m >> 1) & 1 == 0 {
+            o.push((9, 0));
+        }
+        o.push((10, (m >> 2) & 1));
+        if (m >> 2) & 1 == 0 {
+            o.push((11, 0));
+        }
+        if m >> 3 == 1 {
+            o.extend([(4, 1), (5, 704 + rng.below(320))]);
+        } else {
+            o.extend([(4, 0), (5, rng.below(241))]);
+        }
+        out.push(pack(&W44, &with(&b, &o)));
+    }
+}
+
+// ---------------------------------------------------------------------------------------------
+// BDS 4,5: 5 x level(1+2) temperature(1+1+9) pressure(1+11) height(1+12) reserved(5)
+const W45: [usize; 18] = [1, 2, 1, 2, 1, 2, 1, 2, 1, 2, 1, 1, 9, 1, 11, 1, 12, 5];
+
+fn valid_45(rng: &mut Rng) -> Vec<u64> {
+    let mut v = vec![];
+    for _ in 0..5 {
+        if rng.chance(1, 2) {
+            v.extend([1, rng.below(4)]);
+        } else {
+            v.extend([0, 0]);
+        }
+    }
+    if rng.chance(2, 3) {
+        if rng.chance(1, 2) {
+            v.extend([1, 0, rng.below(241)]);
+        } else {
+            v.extend([1, 1, 192 + rng.below(320)]);
+        }
+    } else {
+        v.extend([0, rng.below(2), 0]); // sign bit is ignored when the status is off
+    }
+    if rng.chance(1, 2) {
+        v.extend([1, rng.below(2048)]);
+    } else {
+        v.extend([0, 0]);
+    }
+    if rng.chance(1, 2) {
+        v.extend([1, rng.below(4096)]);
+    } else {
+        v.extend([0, 0]);
+    }
+    v.push(0);
+    v
+}
+
+fn gen_45(rng: &mut Rng, thorough: bool, out: &mut Vec<Vec<u8>>) {
+    for f in 0..5 {
+        for st in 0..2 {
+            for v in 0..4 {
+                let b = valid_45(rng);
+                out.push(pack(&W45, &with(&b, &[(2 * f, st), (2 * f + 1, v)])));
+            }
+        }
+    }
+    let tv: Vec<u64> = if thorough { all(9) } else { vec![0, 1, 2, 190, 191, 192, 193, 239, 240, 241, 242, 255, 256, 510, 511] };
+    for st in 0..2 {
+        for sign in 0..2 {
+            for &v in &tv {
+                let b = valid_45(rng);
+                out.push(pack(&W45, &with(&b, &[(10, st), (11, sign), (12, v)])));
+            }
+        }
+    }
+    let pv: Vec<u64> = if thorough { all(11) } else { vec![0, 1, 2, 1013, 1023, 1024, 2046, 2047] };
+    for st in 0..2 {
+        for &v in &pv {
+            let b = valid_45(rng);
+            out.push(pack(&W45, &with(&b, &[(13, st), (14, v)])));
+        }
+    }
+    let hv: Vec<u64> = if thorough { all(12) } else { vec![0, 1, 2, 2047, 2048, 4094, 4095] };
+    for st in 0..2 {
+        for &v in &hv {
+            let b = valid_45(rng);
+            out.push(pack(&W45, &with(&b, &[(15, st), (16, v)])));
+        }
+    }
+    for r in 1..32 {
+        let b = valid_45(rng);
+        out.push(pack(&W45, &with(&b, &[(17, r)])));
+    }
+    // status combinations of the eight fields
+    let combos: Vec<u64> = if thorough { all(8) } else { (0..48).map(|_| rng.below(256)).chain([0, 255]).collect() };
+    for m in combos {
+        let b = valid_45(rng);
+        let mut o = vec![];
+        for f in 0..5 {
+            let on = (m >> f) & 1;
+            o.push((2 * f, on));
+            if on == 0 {
+                o.push((2 * f + 1, 0));
+            }
+        }
+        if (m >> 5) & 1 == 1 {
+            o.extend([(10, 1), (11, 0), (12, rng.below(241))]);
+        } else {
+            o.extend([(10, 0), (12, 0)]);
+        }
+        o.push((13, (m >> 6) & 1));
+        if (m >> 6) & 1 == 0 {
+            o.push((14, 0));
+        }
+        o.push((15, (m >> 7) & 1));
+        if (m >> 7) & 1 == 0 {
+            o.push((16, 0));
+        }
+        out.push(pack(&W45, &with(&b, &o)));
+    }
+}
+
+// ---------------------------------------------------------------------------------------------
+// BDS 5,0: roll(1+1+9) track(1+1+10) gs(1+10) rate(1+1+9) tas(1+10)
+const W50: [usize; 13] = [1, 1, 9, 1, 1, 10, 1, 10, 1, 1, 9, 1, 10];
+const R_S: usize = 0;
+const R_SG: usize = 1;
+const R_V: usize = 2;
+const T_S: usize = 3;
+const T_SG: usize = 4;
+const T_V: usize = 5;
+const G_S: usize = 6;
+const G_V: usize = 7;
+const Q_S: usize = 8;
+const Q_SG: usize = 9;
+const Q_V: usize = 10;
+const A_S: usize = 11;
+const A_V: usize = 12;
+
+/// rate fields (status, sign, value) whose sign agrees with a roll of sign `rs` (-1, 0, 1)
+fn rate_for(rng: &mut Rng, rs: i32) -> (u64, u64, u64) {
+    match rng.below(6) {
+        0 => (0, 0, 0),
+        1 => (1, rng.below(2), 511), // "not available": None whatever the sign
+        2 => (1, 0, 0),              // rate 0 agrees with everything
+        _ => match rs {
+            1 => (1, 0, rng.below(511)),
+            -1 => (1, 1, rng.below(511)),
+            _ => (1, rng.below(2), rng.below(511)),
+        },
+    }
+}
+
+fn tas_for(rng: &mut Rng, gs: Option<u64>) -> (u64, u64) {
+    if rng.chance(1, 5) {
+        return (0, 0);
+    }
+    match gs {
+        None => (1, rng.below(1024)), // no check at all without ground speed
+        Some(g) => {
+            let lo = 40.max(g.saturating_sub(100));
+            let hi = 250.min(g + 100);
+            (1, lo + rng.below(hi - lo + 1))
+        }
+    }
+}
+
+fn valid_50(rng: &mut Rng) -> Vec<u64> {
+    let (rs, rsg, rv, sgn) = match rng.below(4) {
+        0 => (0, 0, 0, 0),
+        1 => (1, 0, 0, 0),
+        2 => (1, 0, 1 + rng.below(284), 1),
+        _ => (1, 1, 228 + rng.below(284), -1),
+    };
+    let (ts, tsg, tv) = if rng.chance(3, 4) { (1, rng.below(2), rng.below(1024)) } else { (0, 0, 0) };
+    let (gs, gv) = if rng.chance(3, 4) { (1, rng.below(301)) } else { (0, 0) };
+    let (qs, qsg, qv) = rate_for(rng, sgn);
+    let (a_s, av) = tas_for(rng, if gs == 1 { Some(gv) } else { None });
+    vec![rs, rsg, rv, ts, tsg, tv, gs, gv, qs, qsg, qv, a_s, av]
+}
+
+fn gen_50(rng: &mut Rng, thorough: bool, out: &mut Vec<Vec<u8>>) {
+    // roll: |n| <= 284 accepted; rate off or zero so that only the roll rule is exercised
+    let rv: Vec<u64> = if thorough { all(9) } else { vec![0, 1, 2, 226, 227, 228, 229, 255, 256, 257, 283, 284, 285, 286, 510, 511] };
+    for st in 0..2 {
+        for sg in 0..2 {
+            for &v in &rv {
+                let b = valid_50(rng);
+                out.push(pack(&W50, &with(&b, &[(R_S, st), (R_SG, sg), (R_V, v), (Q_S, 0), (Q_SG, 0), (Q_V, 0)])));
+                out.push(pack(&W50, &with(&b, &[(R_S, st), (R_SG, sg), (R_V, v), (Q_S, 1), (Q_SG, 0), (Q_V, 0)])));
+            }
+        }
+    }
+    let tv: Vec<u64> = if thorough { all(10) } else { vec![0, 1, 2, 255, 256, 511, 512, 513, 1022, 1023] };
+    for st in 0..2 {
+        for sg in 0..2 {
+            for &v in &tv {
+                let b = valid_50(rng);
+                out.push(pack(&W50, &with(&b, &[(T_S, st), (T_SG, sg), (T_V, v)])));
+            }
+        }
+    }
+    // ground speed alone (TAS off), then with a TAS next to it
+    let gv: Vec<u64> = if thorough { all(10) } else { vec![0, 1, 2, 39, 40, 150, 299, 300, 301, 302, 511, 512, 1022, 1023] };
+    for st in 0..2 {
+        for &v in &gv {
+            let b = valid_50(rng);
+            out.push(pack(&W50, &with(&b, &[(G_S, st), (G_V, v), (A_S, 0), (A_V, 0)])));
+            let (a_s, av) = tas_for(rng, Some(v.min(300)));
+            out.push(pack(&W50, &with(&b, &[(G_S, st), (G_V, v), (A_S, a_s), (A_V, av)])));
+        }
+    }
+    // track rate against the four classes of roll (absent, zero, right, left)
+    let qv: Vec<u64> = if thorough { all(9) } else { vec![0, 1, 2, 255, 256, 509, 510, 511] };
+    let rolls: [(u64, u64, u64); 6] = [(0, 0, 0), (1, 0, 0), (1, 0, 1), (1, 0, 284), (1, 1, 511), (1, 1, 228)];
+    for &(rs, rsg, rvv) in &rolls {
+        for st in 0..2 {
+            for sg in 0..2 {
+                for &v in &qv {
+                    let b = valid_50(rng);
+                    out.push(pack(&W50, &with(&b, &[(R_S, rs), (R_SG, rsg), (R_V, rvv), (Q_S, st), (Q_SG, sg), (Q_V, v)])));
+                }
+            }
+        }
+    }
+    // TAS without ground speed: anything goes
+    let av: Vec<u64> = if thorough { all(10) } else { vec![0, 1, 2, 39, 40, 41, 249, 250, 251, 511, 512, 1022, 1023] };
+    for st in 0..2 {
+        for &v in &av {
+            let b = valid_50(rng);
+            out.push(pack(&W50, &with(&b, &[(G_S, 0), (G_V, 0), (A_S, st), (A_V, v)])));
+        }
+    }
+    // TAS against ground speed: [80,500] kt and |GS - TAS| <= 200 kt, on both sides of every edge
+    let gss: Vec<u64> = if thorough { (0..=300).step_by(4).chain([1, 139, 141, 149, 151, 299]).collect() } else { vec![0, 1, 20, 40, 100, 139, 140, 141, 149, 150, 151, 200, 250, 299, 300] };
+    for &g in &gss {
+        let mut ts: Vec<u64> = if thorough {
+            (0..=400).collect()
+        } else {
+            vec![0, 1, 38, 39, 40, 41, 42, 248, 249, 250, 251, 252, 511, 512, 1023]
+        };
+        for d in [99i64, 100, 101] {
+            for s in [-1i64, 1] {
+                let t = g as i64 + s * d;
+                if (0..1024).contains(&t) {
+                    ts.push(t as u64);
+                }
+            }
+        }
+        ts.extend([511, 512, 1023]);
+        for &t in &ts {
+            let b = valid_50(rng);
+            out.push(pack(&W50, &with(&b, &[(G_S, 1), (G_V, g), (A_S, 1), (A_V, t)])));
+        }
+        let b = valid_50(rng);
+        out.push(pack(&W50, &with(&b, &[(G_S, 1), (G_V, g), (A_S, 0), (A_V, 1 + rng.below(1023))])));
+    }
+    // status combinations
+    for m in 0..32u64 {
+        let b = valid_50(rng);
+        let mut o = vec![];
+        if m & 1 == 0 {
+            o.extend([(R_S, 0), (R_SG, 0), (R_V, 0)]);
+        } else {
+            o.extend([(R_S, 1), (R_SG, 0), (R_V, 0)]);
+        }
+        if m & 2 == 0 {
+            o.extend([(T_S, 0), (T_SG, 0), (T_V, 0)]);
+        } else {
+            o.push((T_S, 1));
+        }
+        if m & 4 == 0 {
+            o.extend([(G_S, 0), (G_V, 0)]);
+        } else {
+            o.extend([(G_S, 1), (G_V, 150)]);
+        }
+        if m & 8 == 0 {
+            o.extend([(Q_S, 0), (Q_SG, 0), (Q_V, 0)]);
+        } else {
+            o.extend([(Q_S, 1), (Q_V, rng.below(511))]);
+        }
+        if m & 16 == 0 {
+            o.extend([(A_S, 0), (A_V, 0)]);
+        } else {
+            o.extend([(A_S, 1), (A_V, 100 + rng.below(100))]);
+        }
+        out.push(pack(&W50, &with(&b, &o)));
+    }
+}
+
+// ---------------------------------------------------------------------------------------------
+// BDS 6,0: heading(1+1+10) ias(1+10) mach(1+10) vrate_baro(1+1+9) vrate_inertial(1+1+9)
+const W60: [usize; 13] = [1, 1, 10, 1, 10, 1, 10, 1, 1, 9, 1, 1, 9];
+const H_S: usize = 0;
+const H_SG: usize = 1;
+const H_V: usize = 2;
+const I_S: usize = 3;
+const I_V: usize = 4;
+const M_S: usize = 5;
+const M_V: usize = 6;
+const B_S: usize = 7;
+const B_SG: usize = 8;
+const B_V: usize = 9;
+const V_S: usize = 10;
+const V_SG: usize = 11;
+const V_V: usize = 12;
+
+fn vrate_valid(rng: &mut Rng) -> (u64, u64, u64) {
+    match rng.below(5) {
+        0 => (0, 0, 0),
+        1 => (1, rng.below(2), *rng.pick(&[0u64, 511])),
+        2 | 3 => (1, 0, rng.below(188)),
+        _ => (1, 1, 325 + rng.below(187)),
+    }
+}
+
+fn mach_for(rng: &mut Rng, ias: Option<u64>) -> (u64, u64) {
+    if rng.chance(1, 5) {
+        return (0, 0);
+    }
+    let (lo, hi) = match ias {
+        Some(i) if i > 250 => (100, 250),
+        Some(i) if i < 150 => (1, 125),
+        _ => (1, 250),
+    };
+    (1, lo + rng.below(hi - lo + 1))
+}
+
+fn valid_60(rng: &mut Rng) -> Vec<u64> {
+    let (hs, hsg, hv) = if rng.chance(3, 4) { (1, rng.below(2), rng.below(1024)) } else { (0, 0, 0) };
+    let (is, iv) = if rng.chance(3, 4) { (1, 1 + rng.below(500)) } else { (0, 0) };
+    let (ms, mv) = mach_for(rng, if is == 1 { Some(iv) } else { None });
+    let (bs, bsg, bv) = vrate_valid(rng);
+    let (vs, vsg, vv) = vrate_valid(rng);
+    vec![hs, hsg, hv, is, iv, ms, mv, bs, bsg, bv, vs, vsg, vv]
+}
+
+fn gen_60(rng: &mut Rng, thorough: bool, out: &mut Vec<Vec<u8>>) {
+    let hv: Vec<u64> = if thorough { all(10) } else { vec![0, 1, 2, 255, 256, 511, 512, 513, 1022, 1023] };
+    for st in 0..2 {
+        for sg in 0..2 {
+            for &v in &hv {
+                let b = valid_60(rng);
+                out.push(pack(&W60, &with(&b, &[(H_S, st), (H_SG, sg), (H_V, v)])));
+            }
+        }
+    }
+    // IAS alone (Mach off), then with a Mach next to it
+    let iv: Vec<u64> = if thorough { all(10) } else { vec![0, 1, 2, 148, 149, 150, 151, 249, 250, 251, 252, 499, 500, 501, 502, 511, 512, 1022, 1023] };
+    for st in 0..2 {
+        for &v in &iv {
+            let b = valid_60(rng);
+            out.push(pack(&W60, &with(&b, &[(I_S, st), (I_V, v), (M_S, 0), (M_V, 0)])));
+            let (ms, mv) = mach_for(rng, Some(v));
+            out.push(pack(&W60, &with(&b, &[(I_S, st), (I_V, v), (M_S, ms), (M_V, mv)])));
+        }
+    }
+    // Mach: the complete code space against IAS absent / below 150 / in between / above 250 —
+    // the float thresholds (Mach 0.4, 0.5, 1.0 sit exactly on codes 100, 125, 250)
+    let iass: Vec<Option<u64>> = if thorough {
+        vec![None, Some(1), Some(148), Some(149), Some(150), Some(151), Some(200), Some(249), Some(250), Some(251), Some(252), Some(500)]
+    } else {
+        vec![None, Some(149), Some(150), Some(250), Some(251)]
+    };
+    for ias in &iass {
+        for st in 0..2 {
+            let mv: Vec<u64> = if st == 1 { all(10) } else { vec![0, 1, 100, 125, 250, 512, 1023] };
+            for &v in &mv {
+                let b = valid_60(rng);
+                let (is, ivv) = match ias {
+                    Some(i) => (1, *i),
+                    None => (0, 0),
+                };
+                out.push(pack(&W60, &with(&b, &[(I_S, is), (I_V, ivv), (M_S, st), (M_V, v)])));
+            }
+        }
+    }
+    // vertical rates: 0 and 511 are "0 ft/min"; |rate| <= 6000 ⇔ magnitude code <= 187
+    let vv: Vec<u64> = if thorough { all(9) } else { vec![0, 1, 2, 186, 187, 188, 189, 255, 256, 257, 323, 324, 325, 326, 509, 510, 511] };
+    for f in [B_S, V_S] {
+        for st in 0..2 {
+            for sg in 0..2 {
+                for &v in &vv {
+                    let b = valid_60(rng);
+                    out.push(pack(&W60, &with(&b, &[(f, st), (f + 1, sg), (f + 2, v)])));
+                }
+            }
+        }
+    }
+    // status combinations
+    for m in 0..32u64 {
+        let b = valid_60(rng);
+        let mut o = vec![];
+        if m & 1 == 0 {
+            o.extend([(H_S, 0), (H_SG, 0), (H_V, 0)]);
+        } else {
+            o.push((H_S, 1));
+        }
+        if m & 2 == 0 {
+            o.extend([(I_S, 0), (I_V, 0)]);
+        } else {
+            o.extend([(I_S, 1), (I_V, 200)]);
+        }
+        if m & 4 == 0 {
+            o.extend([(M_S, 0), (M_V, 0)]);
+        } else {
+            o.extend([(M_S, 1), (M_V, 1 + rng.below(250))]);
+        }
+        if m & 8 == 0 {
+            o.extend([(B_S, 0), (B_SG, 0), (B_V, 0)]);
+        } else {
+            o.extend([(B_S, 1), (B_SG, 0), (B_V, rng.below(188))]);
+        }
+        if m & 16 == 0 {
+            o.extend([(V_S, 0), (V_SG, 0), (V_V, 0)]);
+        } else {
+            o.extend([(V_S, 1), (V_SG, 1), (V_V, 325 + rng.below(187))]);
+        }
+        out.push(pack(&W60, &with(&b, &o)));
+    }
+}
 
 /// 7-byte ME/MB payloads: mostly valid encodings of the registers this file covers, boundary
 /// values of every field, each status bit on/off, plus a few near-valid ones.
-pub fn payloads(_rng: &mut Rng, _thorough: bool) -> Vec<Vec<u8>> {
-    vec![]
+pub fn payloads(rng: &mut Rng, thorough: bool) -> Vec<Vec<u8>> {
+    let mut out = vec![];
+    gen_40(rng, thorough, &mut out);
+    gen_44(rng, thorough, &mut out);
+    gen_45(rng, thorough, &mut out);
+    gen_50(rng, thorough, &mut out);
+    gen_60(rng, thorough, &mut out);
+    // plain valid encodings
+    let n = if thorough { 2000 } else { 40 };
+    for _ in 0..n {
+        out.push(pack(&W40, &valid_40(rng)));
+        out.push(pack(&W44, &valid_44(rng)));
+        out.push(pack(&W45, &valid_45(rng)));
+        out.push(pack(&W50, &valid_50(rng)));
+        out.push(pack(&W60, &valid_60(rng)));
+    }
+    out
 }
